@@ -302,6 +302,9 @@ def run(tier, seed):
     ck.coverage['traces_validated_against_impl'] += total
     ck.coverage['evaluations'] += total
     ck.require_nonvacuous('bandwidth traces', total, 50)
+    # 3. end to end through a TransferManager
+    from checks import c13_e2e
+    c13_e2e.run(ck, tier, seed)
     ck.assumptions += [
         'max_rate 1 byte per virtual second so that time, waits and amounts '
         'are exact integers (floats are exact for these values)',
